@@ -445,7 +445,8 @@ where
             self.refs.set(id, XRef::Raw { pos: pos as _, gen_nr: gen });
             writeln!(self.backend, "{} {} obj", id, gen)?;
             primitive.serialize(&mut self.backend)?;
-            writeln!(self.backend, "endobj")?;
+            // the body needs a separator: `7endobj` would be read as one token
+            writeln!(self.backend, "\nendobj")?;
         }
 
         let xref_pos = self.backend.len();
